@@ -302,7 +302,37 @@ impl<'grammar> TypeInferencer<'grammar> {
                 mutable,
                 referent: Box::new(self.type_ref(referent)?),
             }),
-            TypeRef::OfSymbol(ref symbol) => self.symbol_type(symbol),
+            TypeRef::OfSymbol(ref symbol) => {
+                // A `#symbol#` written by the user has been seen neither by name resolution
+                // nor by macro expansion (the ones macro expansion creates are fine).
+                let span = self
+                    .stack
+                    .last()
+                    .map(|id| self.nonterminals[id].span)
+                    .unwrap_or(Span(0, 0));
+                match *symbol {
+                    SymbolKind::AmbiguousId(ref id) => {
+                        let nt = NonterminalString(id.clone());
+                        if self.nonterminals.contains_key(&nt) {
+                            self.nonterminal_type(&nt)
+                        } else {
+                            return_err!(span, "no nonterminal named `{}` for `#{}#`", id, id)
+                        }
+                    }
+                    SymbolKind::Repeat(..)
+                    | SymbolKind::Expr(..)
+                    | SymbolKind::Macro(..)
+                    | SymbolKind::Lookahead
+                    | SymbolKind::Lookbehind => {
+                        return_err!(
+                            span,
+                            "cannot refer to the type of `{}` with `#..#`; name a nonterminal or a terminal",
+                            symbol
+                        )
+                    }
+                    _ => self.symbol_type(symbol),
+                }
+            }
             TypeRef::TraitObject {
                 ref path,
                 ref types,
